@@ -270,6 +270,10 @@ pub fn handle_srandmember(storage: &Arc<StorageEngine>, db: usize, parts: &[Resp
         match &parts[2] {
             RespFrame::BulkString(Some(bytes)) => {
                 match String::from_utf8_lossy(bytes).parse::<i64>() {
+                    // A negative count asks for that many elements with repetition: the reply
+                    // cannot hold more elements than a 32-bit count, and i64::MIN has no
+                    // absolute value at all
+                    Ok(n) if n.unsigned_abs() > i32::MAX as u64 => return Ok(RespFrame::error("ERR value is out of range")),
                     Ok(n) => Some(n),
                     Err(_) => return Ok(RespFrame::error("ERR value is not an integer or out of range")),
                 }
